@@ -582,3 +582,131 @@ def helper_calls(idx: Index, S: Sem) -> List[Tuple[FunctionInfo, ast.Call, Sem]]
             if g is not None and g is not S.fi and nm.startswith("_") and not (nm.startswith("__") and nm.endswith("__")):
                 out.append((g, c, Sem(idx, g, caller=(S, c))))
     return out
+
+
+# ---------------------------------------------------------------------- statement-level inlining of private helpers
+
+def _simple_body(g: FunctionInfo) -> Optional[Tuple[List[ast.stmt], Optional[ast.AST]]]:
+    """(statements, returned expression) if g's only `return` is its last statement (or it has none), else None."""
+    body = [s for s in g.node.body if not (isinstance(s, ast.Expr) and isinstance(s.value, ast.Constant) and isinstance(s.value.value, str))]
+    rets = [n for n in ast.walk(g.node) if isinstance(n, ast.Return)]
+    if any(isinstance(n, (ast.Yield, ast.YieldFrom, ast.FunctionDef, ast.AsyncFunctionDef, ast.Lambda, ast.Global, ast.Nonlocal)) for s in body for n in ast.walk(s)):
+        return None
+    if not rets:
+        return body, None
+    if len(rets) == 1 and body and body[-1] is rets[0]:
+        return body[:-1], rets[0].value
+    return None
+
+
+class _Rename(ast.NodeTransformer):
+    def __init__(self, names: Dict[str, str], subst: Dict[str, ast.AST]):
+        self.names, self.subst = names, subst
+
+    def visit_Name(self, n: ast.Name):
+        if n.id in self.subst and isinstance(n.ctx, ast.Load):
+            return copy.deepcopy(self.subst[n.id])
+        if n.id in self.names:
+            return ast.copy_location(ast.Name(id=self.names[n.id], ctx=n.ctx), n)
+        return n
+
+
+def inline_private_helpers(idx: Index, fi: FunctionInfo, depth: int = 2) -> FunctionInfo:
+    """A copy of `fi` in which statements `t = self._h(a, b)`, `return _h(a)`, `self._h(a)` calling a private helper of the same
+    module/class with a simple body (no early return) are replaced by the helper's statements (locals renamed, parameters bound).
+    Used so that an "extract method" refactor leaves the analysed shape unchanged."""
+    m = fi.module
+    count = [0]
+
+    def helper_of(call: ast.AST) -> Optional[FunctionInfo]:
+        if not isinstance(call, ast.Call):
+            return None
+        fn = call.func
+        name = fn.id if isinstance(fn, ast.Name) else fn.attr if isinstance(fn, ast.Attribute) and isinstance(fn.value, ast.Name) and fn.value.id in ("self", "cls") else None
+        if name is None or not name.startswith("_") or (name.startswith("__") and name.endswith("__")) or name == fi.name:
+            return None
+        g = m.functions.get(name) if isinstance(fn, ast.Name) else (idx.find_method(fi.cls, name) if fi.cls is not None else None)
+        if g is None or g.module is not m or g.is_property:
+            return None
+        if any(isinstance(a, ast.Starred) for a in call.args) or any(k.arg is None for k in call.keywords):
+            return None
+        return g
+
+    def expand(call: ast.Call, g: FunctionInfo, make_tail) -> Optional[List[ast.stmt]]:
+        sb = _simple_body(g)
+        if sb is None:
+            return None
+        body, retv = sb
+        params = list(g.params)
+        if isinstance(call.func, ast.Attribute) and params and params[0] in ("self", "cls"):
+            params = params[1:]
+        if len(call.args) > len(params):
+            return None
+        bind: Dict[str, ast.AST] = {}
+        for p_, a in zip(params, call.args):
+            bind[p_] = a
+        for k in call.keywords:
+            bind[k.arg] = k.value
+        a_ = g.node.args
+        pos = [x.arg for x in a_.posonlyargs + a_.args]
+        for i_, d_ in enumerate(a_.defaults):
+            bind.setdefault(pos[len(pos) - len(a_.defaults) + i_], d_)
+        for x, d_ in zip(a_.kwonlyargs, a_.kw_defaults):
+            if d_ is not None:
+                bind.setdefault(x.arg, d_)
+        if any(p_ not in bind for p_ in params):
+            return None
+        count[0] += 1
+        tag = f"__{g.name.strip('_')}{count[0]}"
+        assigned = {n.id for s in g.node.body for n in ast.walk(s) if isinstance(n, ast.Name) and isinstance(n.ctx, (ast.Store, ast.Del))}
+        names = {n_: n_ + tag for n_ in assigned}
+        subst: Dict[str, ast.AST] = {}
+        pre: List[ast.stmt] = []
+        for p_ in params:
+            v = bind[p_]
+            simple = isinstance(v, (ast.Name, ast.Constant)) or (isinstance(v, ast.Attribute) and isinstance(v.value, ast.Name))
+            if simple and p_ not in assigned:
+                subst[p_] = v
+            else:
+                names[p_] = p_ + tag
+                pre.append(ast.copy_location(ast.Assign(targets=[ast.Name(id=p_ + tag, ctx=ast.Store())], value=copy.deepcopy(v), lineno=call.lineno), call))
+        rn = _Rename(names, subst)
+        new = pre + [rn.visit(copy.deepcopy(s)) for s in body]
+        tail = make_tail(rn.visit(copy.deepcopy(retv)) if retv is not None else ast.Constant(value=None))
+        if tail is not None:
+            new.append(tail)
+        for s in new:
+            ast.fix_missing_locations(s)
+        return new
+
+    def process(stmts_: List[ast.stmt], level: int) -> List[ast.stmt]:
+        out: List[ast.stmt] = []
+        for s in stmts_:
+            for fld in ("body", "orelse", "finalbody"):
+                v = getattr(s, fld, None)
+                if isinstance(v, list) and v and isinstance(v[0], ast.stmt):
+                    setattr(s, fld, process(v, level))
+            if isinstance(s, ast.Try):
+                for h in s.handlers:
+                    h.body = process(h.body, level)
+            rep = None
+            if level < depth:
+                if isinstance(s, ast.Assign) and len(s.targets) == 1 and helper_of(s.value) is not None:
+                    tgt = s.targets[0]
+                    rep = expand(s.value, helper_of(s.value), lambda v, tgt=tgt, s=s: ast.copy_location(ast.Assign(targets=[tgt], value=v, lineno=s.lineno), s))
+                elif isinstance(s, ast.Return) and s.value is not None and helper_of(s.value) is not None:
+                    rep = expand(s.value, helper_of(s.value), lambda v, s=s: ast.copy_location(ast.Return(value=v), s))
+                elif isinstance(s, ast.Expr) and helper_of(s.value) is not None:
+                    rep = expand(s.value, helper_of(s.value), lambda v: None)
+            if rep is not None:
+                out += process(rep, level + 1)
+            else:
+                out.append(s)
+        return out
+
+    node = copy.deepcopy(fi.node)
+    node.body = process(node.body, 0)
+    if count[0] == 0:
+        return fi
+    ast.fix_missing_locations(node)
+    return FunctionInfo(name=fi.name, qualname=fi.qualname, module=fi.module, node=node, cls=fi.cls, decorators=list(fi.decorators))
